@@ -195,6 +195,9 @@ func cmdCheck(args []string) {
 			continue
 		}
 		funcs[vc.Contract.Func] = true
+		for _, tc := range vc.Engine.trustedClauses {
+			trusted = append(trusted, "clause "+tc)
+		}
 		for k, n := range vc.Engine.assumedExt {
 			assumed[k] += n
 		}
@@ -349,7 +352,7 @@ func cmdCheck(args []string) {
 }
 
 func solveJobs(jobs []oblResult, dir string, timeoutS int, thorough bool) []oblResult {
-	sem := make(chan struct{}, 6)
+	sem := make(chan struct{}, 3)
 	var wg sync.WaitGroup
 	for i := range jobs {
 		wg.Add(1)
